@@ -330,6 +330,10 @@ package vnet
 // ---- time plus the delay; Run forwards the items of the queue in queue order, each exactly once, and only after a timer
 // ---- tick later than the item's deadline (fwdTick: the tick that released the k-th forwarded chunk).
 //@ ghost global fwdTick map[mathint]mathint
+//@ func NewDelayFilter(nic NIC, delay time.Duration) (f *DelayFilter, err error)
+//@   ensures [made] err == nil && f != nil && fresh(f) && f.delay == delay && f.NIC == nic && f.push != nil && f.queue != nil && fresh(f.queue)
+//@ func newChunkQueue(maxSize int, maxBytes int) (q *chunkQueue)
+//@   ensures [made] q != nil && fresh(q) && q.maxSize == maxSize && q.maxBytes == maxBytes && q.currentBytes == 0 && len(q.chunks) == 0
 //@ func (f *DelayFilter) onInboundChunk(c Chunk)
 //@   requires f.queue != nil && c != nil
 //@   modifies clock, lastPushed
@@ -830,11 +834,11 @@ package vnet
 //@ property C02: networkAddressTranslator.translateOutbound, networkAddressTranslator.findOutboundMapping, networkAddressTranslator.allocUDPPort, networkAddressTranslator.removeMapping, networkAddressTranslator.translateInbound, Router.processChunks, Router.onInboundChunk, newNAT, Router.setRouter
 // permissions consulted by the inbound filter are recorded by translateOutbound
 //@ property C03: networkAddressTranslator.translateInbound, networkAddressTranslator.removeMapping, networkAddressTranslator.translateOutbound, networkAddressTranslator.findOutboundMapping, Router.onInboundChunk, newNAT, Router.setRouter
-//@ property C14: chunkQueue.push, chunkQueue.pop, chunkQueue.peek, DelayFilter.onInboundChunk, DelayFilter.Run, Router.push, Router.processChunks, Router.AddChunkFilter
-//@ property C15: TokenBucketFilter.refillTokens, TokenBucketFilter.drainQueue, TokenBucketFilter.run, TokenBucketFilter.onInboundChunk, chunkQueue.push, chunkQueue.pop, chunkQueue.peek
+//@ property C14: chunkQueue.push, chunkQueue.pop, chunkQueue.peek, DelayFilter.onInboundChunk, DelayFilter.Run, Router.push, Router.processChunks, Router.AddChunkFilter, chunkIP.getTimestamp, chunkIP.setTimestamp, NewDelayFilter, newChunkQueue
+//@ property C15: TokenBucketFilter.refillTokens, TokenBucketFilter.drainQueue, TokenBucketFilter.run, TokenBucketFilter.onInboundChunk, chunkQueue.push, chunkQueue.pop, chunkQueue.peek, newChunkQueue
 // (UDPConn.Close belongs to C01 as well: a refused second Close must not unbind the address a successor socket holds)
 // every function under contract in the files C01 is anchored in that can lose, duplicate or misdeliver a datagram: socket registration, routing table, NAT
-//@ property C01: chunkUDP.SourceAddr, chunkUDP.DestinationAddr, chunkUDP.UserData, chunkUDP.Network, chunkUDP.Clone, chunkUDP.setSourceAddr, chunkUDP.setDestinationAddr, Router.processChunks, Router.push, Router.onInboundChunk, Net.write, Net.onInboundChunk, UDPConn.WriteTo, UDPConn.ReadFrom, UDPConn.onInboundChunk, chunkQueue.push, chunkQueue.pop, chunkQueue.peek, udpConnMap.find, UDPConn.Close, udpConnMap.insert, udpConnMap.delete, Net.onClosed, Net._dialUDP, newUDPConn, Router.addNIC, networkAddressTranslator.translateOutbound, networkAddressTranslator.findOutboundMapping, networkAddressTranslator.allocUDPPort, networkAddressTranslator.removeMapping, networkAddressTranslator.translateInbound, newChunkUDP
+//@ property C01: chunkUDP.SourceAddr, chunkUDP.DestinationAddr, chunkUDP.UserData, chunkUDP.Network, chunkUDP.Clone, chunkUDP.setSourceAddr, chunkUDP.setDestinationAddr, Router.processChunks, Router.push, Router.onInboundChunk, Net.write, Net.onInboundChunk, UDPConn.WriteTo, UDPConn.ReadFrom, UDPConn.onInboundChunk, chunkQueue.push, chunkQueue.pop, chunkQueue.peek, udpConnMap.find, UDPConn.Close, udpConnMap.insert, udpConnMap.delete, Net.onClosed, Net._dialUDP, newUDPConn, Router.addNIC, networkAddressTranslator.translateOutbound, networkAddressTranslator.findOutboundMapping, networkAddressTranslator.allocUDPPort, networkAddressTranslator.removeMapping, networkAddressTranslator.translateInbound, newChunkUDP, chunkIP.getSourceIP, chunkIP.getDestinationIP, chunkIP.getTimestamp, chunkIP.setTimestamp, chunkIP.Tag, newChunkQueue
 //@ property C13: Router.assignIPAddress, Router.addNIC, udpConnMap.insert, udpConnMap.find, udpConnMap.delete, newUDPConn, UDPConn.onInboundChunk, UDPConn.Close, Net.onInboundChunk, Net.onClosed, Net.allocateLocalAddr, Net.assignPort, Net._dialUDP
 //@ property C10: newUDPConn, UDPConn.ReadFrom, UDPConn.Read, UDPConn.SetReadDeadline, UDPConn.SetDeadline
 //@ property C16: NewLossFilter, LossFilter.onInboundChunk
